@@ -19,7 +19,7 @@ PRODUCERS = [q for q, (_, role) in O.QUERIES.items() if role == "P"]
 CONSUMERS = [q for q, (_, role) in O.QUERIES.items() if role in ("C", "X")]
 EXPORTS = [q for q, (_, role) in O.QUERIES.items() if role == "X"]
 ISOLATED_SHARE = 0.25
-FORK_OPS = ["deepcopy", "deepcopy", "pickle", "pickle", "reload", "reload", "derive_P1", "derive_cif", "derive_res", "stranger", "stranger"]
+FORK_OPS = ["deepcopy", "deepcopy", "pickle", "pickle", "reload", "reload", "derive_P1", "derive_cif", "derive_res", "stranger", "stranger", "drop"]
 RADII = [1.5, 3.0, 3.8, 6.0, 9.0]
 BOUNDS = [
     [[-1, -1, -1], [1, 1, 1]],
